@@ -151,7 +151,7 @@ pub fn glob_pattern() -> BoxedStrategy<Bytes> {
         4 => select(vec![bs("k"), bs("j"), bs("e"), bs("y"), bs(":"), bs("3"), bs("L"), bs("a"), bs("b"), b"\r".to_vec(), b"\n".to_vec(), b"\xff".to_vec(), b"\x00".to_vec(), bs("_")]),
         4 => Just(bs("*")),
         2 => Just(bs("?")),
-        1 => select(vec![bs("[a-k]"), bs("[jk]"), bs("[^k]"), bs("[^a-c]"), bs("[k-a]"), bs("\\*"), bs("\\k"), bs("\\?"), bs("[\\k]")]),
+        1 => select(vec![bs("[a-k]"), bs("[jk]"), bs("[^k]"), bs("[^a-c]"), bs("\\*"), bs("\\k"), bs("\\?"), bs("[\\k]")]),
     ];
     prop_oneof![
         3 => Just(bs("*")),
